@@ -10,7 +10,7 @@ path condition.
 import itertools, json, os, sys, time, z3
 import loader, models, interp
 from interp import Machine, Ptr, Struct, Enum, Opaque, BoxObj, VecObj, Tuple, Unsupported, RustPanic, PathAbort
-from models import OsVal, Some, NONE, Ok, Err
+from models import OsVal, Some, NONE, Ok, Err, deref, as_list
 
 MAXLEN = 40
 
@@ -73,10 +73,39 @@ def explore(nargs, cfg, funcs, index, enums, order=None, sys_as_s=False):
             elif isinstance(v, Struct) and v.ty in ("LossyV", "CharsV"): v = v.fields[0]
             else: break
         return v
-    natives = {"<IdReader as ArgumentReader>::next": reader_next, "CommandBuilder::execute": execute,
+    # By default the REAL CommandBuilder::execute runs (from MIR) and std::process::Command is the recorder: the argv an invocation is started with
+    # and the child's wait status are what the property speaks about, whatever execute's own signature and return type are (a refactoring
+    # of that interface must neither blind the check nor raise an alarm). C04_EXECUTE_RECORDER=1 selects the older recorder at execute itself.
+    def cmd_new(m, args):
+        return Struct("Cmd", [[osval_of(args[0])]])
+
+    def cmd_args(m, args):
+        items, a, b = as_list(args[1])
+        deref(args[0]).fields[0].extend(osval_of(x) for x in items[a:b])
+        return args[0]
+
+    def cmd_status(m, args):
+        argv = deref(args[0]).fields[0]
+        if not isinstance(argv[0], OsVal) or argv[0].ident != "cmd":
+            raise Unsupported("Command::new with %r" % (argv[0],))
+        state["batches"].append([a.ident for a in argv[1:]])
+        k = len(state["batches"]) - 1
+        o = m.decide_int(outc[k], [0, 1]) if k < len(outc) else 0
+        o = 2 if o is None else o
+        state["outcomes"].append(o)
+        return Ok(Struct("ExitStatusV", [o]))
+
+    real = {"Command::new": cmd_new, "Command::args": cmd_args, "Command::env_clear": lambda m, a: a[0], "Command::envs": lambda m, a: a[0],
+            "Command::stdin": lambda m, a: a[0], "Command::status": cmd_status, "ExitStatus::success": lambda m, a: deref(a[0]).fields[0] == 0,
+            "ExitStatus::code": lambda m, a: Some({0: 0, 1: 7, 2: 255}[deref(a[0]).fields[0]])}
+    natives = {"<IdReader as ArgumentReader>::next": reader_next,
                "OsStr::to_string_lossy": lambda m, a: Struct("LossyV", [osval_of(a[0])]), "<Cow as Deref>::deref": lambda m, a: a[0],
                "str::chars": lambda m, a: Struct("CharsV", [osval_of(a[0])]), "<Chars as Iterator>::count": lambda m, a: nchars[osval_of(a[0]).ident],
                "str::len": lambda m, a: osval_of(a[0]).length}
+    if os.environ.get("C04_EXECUTE_RECORDER") == "1":
+        natives["CommandBuilder::execute"] = execute
+    else:
+        natives.update(real)
     m = Machine(funcs, index, enums, models, natives=natives)
     m.base_constraints = base
     m.pending = [[]]
@@ -101,8 +130,11 @@ def explore(nargs, cfg, funcs, index, enums, order=None, sys_as_s=False):
                 bo = [r.fields[0]]
                 opts = [Struct("InputProcessOptions", [cfg["x"], Some(n_lim) if cfg["n"] else NONE(), Some(l_lim) if cfg["L"] else NONE(), cfg["r"]])]
                 rr = m.call("process_input", [Ptr(bo, 0), BoxObj(Struct("IdReader", [])), Ptr(opts, 0)])
-                if rr.variant == "Ok":
+                if rr.variant == "Ok" and rr.fields[0].variant in ("Success", "Failure"):
                     outcome = {"kind": "ok", "result": rr.fields[0].variant}
+                elif rr.variant == "Ok":
+                    # a result that is neither Success nor Failure: the run was cut short by a child's fate, however the interface encodes that
+                    outcome = {"kind": "err", "error": "CommandExecution", "encoded_as": rr.fields[0].variant}
                 else:
                     e = rr.fields[0]
                     outcome = {"kind": "err", "error": e.variant if isinstance(e, Enum) else str(e)}
